@@ -519,6 +519,7 @@ impl Property for C13 {
             vec_top: rng.u8(),
             sub_delay: rng.range(1, 20) as u16,
             init_ccr: Some(if masked { 0x80 | rng.u8() } else { rng.u8() & 0x7f }),
+            stack_off: if rng.chance(1, 2) { 0 } else { 4 * rng.below(64) as u16 },
         };
         let est = super::c10::estimate_iters(&guest);
         Scn { guest: Some(guest), elf: None, args: String::new(), clocks, step_cap: est * 4 + 50_000 }
